@@ -12,7 +12,7 @@ under its own ID) -/
 theorem plugins_emit_own_id (pc : PluginCfg) (fileName : Str) :
     ∀ c ∈ pluginChecks pc fileName, IsPlugin c := by
   intro c hc
-  simp only [pluginChecks, Plugins.miscChecks, Plugins.shellChecks, Plugins.cryptoChecks, List.mem_append,
+  simp only [pluginChecks, Plugins.miscChecks, Plugins.shellChecks, Plugins.cryptoChecks, Plugins.trojanChecks, List.mem_append,
     List.mem_cons, List.not_mem_nil, or_false] at hc
   -- one alternative per registered check, whatever their number
   repeat' (refine Or.elim hc ?_ ?_ <;> clear hc <;> intro hc)
